@@ -119,6 +119,9 @@ func Run[C any](t *testing.T, id string, gen func(*rapid.T) C, check func(C, *st
 		raw := b
 		if json.Unmarshal(b, &v) == nil && len(v.Case) > 0 {
 			raw = v.Case
+			if v.Property != "" && v.Property != id {
+				t.Skipf("replay file belongs to %s", v.Property)
+			}
 		}
 		if err := json.Unmarshal(raw, &c); err != nil {
 			t.Fatalf("replay: cannot decode case: %v", err)
@@ -153,6 +156,9 @@ func RunEnum[C any](t *testing.T, id string, enum func(yield func(C) bool), chec
 		raw := b
 		if json.Unmarshal(b, &v) == nil && len(v.Case) > 0 {
 			raw = v.Case
+			if v.Property != "" && v.Property != id {
+				t.Skipf("replay file belongs to %s", v.Property)
+			}
 		}
 		if err := json.Unmarshal(raw, &c); err != nil {
 			t.Fatalf("replay: cannot decode case: %v", err)
